@@ -430,7 +430,7 @@ def canon(w):
 def expand(task):
     cfg, hist = task
     tier = os.environ.get("XV_TIER", "quick")
-    d = os.path.join(core.scratch_root(), "c08.results.batches")
+    d = os.path.join(core.scratch_root(), "c08.results[1].batches")
     w, finished = build(cfg, hist, d, tier)
     out = {"hist": hist, "succ": []}
     if not hist:
@@ -487,7 +487,7 @@ def run(ctx):
 
 def replay(case):
     tier = "thorough"
-    d = os.path.join(core.scratch_root(), "c08.results.batches")
+    d = os.path.join(core.scratch_root(), "c08.results[1].batches")
     hist = case["history"]
     w, finished = build(case["cfg"], hist[:-1], d, tier)
     try:
